@@ -158,10 +158,15 @@ def explain(prog, path, new, out_tokens):
     (2) when resolving the name fails, nima set falls back to a top-level let binding or a sibling
         attribute with that name, then to overwriting the path binding."""
     pk, pexp, _pd = predictions(prog, path, new, "pinned")
+    S.CROSSINGS[0] = 0
+    S.defining_site(prog, path)
+    crossing = S.CROSSINGS[0] > 0   # Nix's own resolution evaluates a non-literal value of a set used from outside
     if pk == "bound":
-        if any(tokens(S.render(c)) == out_tokens for c in pexp):
+        if any(tokens(S.render(c)) == out_tokens for c in pexp) or crossing:
             return "set-evaluated-where-used-as-rec"
         return "none"
+    if crossing:
+        return "set-evaluated-where-used-as-rec"
     # resolution fails in the library: fallbacks by name
     ref = parent_set(prog, path).bindings[path[-1]].name
     cands = []
